@@ -115,88 +115,3 @@ Proof.
     + unfold aw_class. destruct c1, c2, c3, c0; cbn; abytes; reflexivity.
   - intros [Hg [Hv [Hl [Hps [Hn [Hk [fi [Hf HF]]]]]]]].
     destruct (aw_items_data g v psize fi items Hf Hps HF) as [E1 [E2 E3]].
-    assert (Hcnt : N.of_nat (length items) < 256 ^ psize).
-    { unfold aw_max_count in Hn. destruct Hps as [E|E]; rewrite E in *; [change (256 ^ 1) with 256 in *|change (256 ^ 2) with 65536 in *]; lia. }
-    split; [|split].
-    + rewrite E1. unfold aencode_header, amk. cbn [map concat oh_g oh_v oh_details oh_payload apayload_bytes].
-      rewrite app_nil_r. destruct Hps as [E|E]; subst psize; cbn [N.eqb Pos.eqb aqualifier adetail_bytes].
-      * rewrite ale_bytes_1 by (change (256 ^ 1) with 256 in Hcnt; lia). reflexivity.
-      * reflexivity.
-    + constructor; [|constructor]. unfold awf_header, amk. cbn [oh_g oh_v oh_details oh_payload].
-      split; [assumption|].
-      assert (Hw : aprefixed_wf o g v psize (N.of_nat (length items))
-                     (PyFixedPrefix psize (N.of_nat (length items))
-                        (concat (map (fun it => ale_bytes (N.to_nat psize) (fst it) ++ snd it) items)))).
-      { unfold aprefixed_wf. rewrite Hk. exists (fi_size fi). eexists. unfold asize. rewrite Hf. auto. }
-      destruct Hps as [E|E]; subst psize; cbn [N.eqb Pos.eqb];
-        [change (256 ^ 1) with 256 in Hcnt|change (256 ^ 2) with 65536 in Hcnt]; (split; [lia|exact Hw]).
-    + apply Forall_cons; [assumption|]. apply Forall_cons; [assumption|].
-      apply Forall_cons; [destruct Hps; subst psize; vm_compute; reflexivity|].
-      apply abytes_ok_app. split; [apply ale_bytes_ok|]. rewrite E1. exact E3.
-  - intros [Hg [Hv [Hl [Hk [fi [Hf [Hb Hlen]]]]]]]. rewrite (arewrite_id g v fi obj Hf Hb Hlen).
-    split; [unfold aencode_header, amk; cbn [map concat oh_g oh_v oh_details oh_payload aqualifier adetail_bytes apayload_bytes app];
-            rewrite app_nil_r; reflexivity|]. split.
-    + constructor; [|constructor]. unfold awf_header, amk. cbn [oh_g oh_v oh_details oh_payload].
-      split; [assumption|]. split; [lia|]. unfold acount_wf. rewrite Hk. exists (fi_size fi), obj.
-      unfold asize. rewrite Hf. repeat split; lia.
-    + apply Forall_cons; [assumption|]. apply Forall_cons; [assumption|]. apply Forall_cons; [vm_compute; reflexivity|].
-      apply Forall_cons; [lia|assumption].
-  - intro Hfc. split; [reflexivity|]. split; [|abytes; reflexivity].
-    constructor; [|constructor]. unfold awf_header, amk. cbn [oh_g oh_v oh_details oh_payload].
-    split; [vm_compute; reflexivity|]. split; [lia|]. split; [lia|]. unfold aranged_wf. rewrite Hfc.
-    replace (aqkind qt_range 80 1) with (Some DBits) by (vm_compute; reflexivity).
-    exists [0]. split; [reflexivity|vm_compute; reflexivity].
-Qed.
-
-Lemma aw_requests_correct o fc hs : Forall (aw_ok o fc) hs ->
-  concat (map aw_bytes hs) = concat (map aencode_header (concat (map aw_headers hs)))
-  /\ Forall (awf_header o fc) (concat (map aw_headers hs))
-  /\ abytes_ok (concat (map aw_bytes hs)).
-Proof.
-  intro HF. induction HF as [|h hs Hh HF IH]; cbn [map concat].
-  - repeat split; constructor.
-  - destruct IH as [E1 [E2 E3]]. destruct (aw_header_correct o fc h Hh) as [H1 [H2 H3]].
-    rewrite map_app, concat_app, <- H1, <- E1. split; [reflexivity|]. split.
-    + apply Forall_app. split; assumption.
-    + apply abytes_ok_app. split; assumption.
-Qed.
-
-Lemma actl_request_round_trip seq : seq < 16 -> actl_of (actl_to (actl_request seq)) = actl_request seq.
-Proof.
-  intro H.
-  assert (Hs : seq = 0 \/ seq = 1 \/ seq = 2 \/ seq = 3 \/ seq = 4 \/ seq = 5 \/ seq = 6 \/ seq = 7 \/ seq = 8
-               \/ seq = 9 \/ seq = 10 \/ seq = 11 \/ seq = 12 \/ seq = 13 \/ seq = 14 \/ seq = 15) by lia.
-  repeat (destruct Hs as [Hs|Hs]; [subst seq; reflexivity|]). subst seq. reflexivity.
-Qed.
-
-Lemma awrite_request_bytes cap seq fc hs bytes : awrite_request cap seq fc hs = AOk bytes ->
-  bytes = actl_to (actl_request seq) :: fc :: concat (map aw_bytes hs).
-Proof.
-  unfold awrite_request. destruct (awfits cap _); [discriminate|]. destruct (aw_run (cap - 2) hs); [discriminate|].
-  intro H. inversion H. reflexivity.
-Qed.
-
-(* P1 encode_parse_round_trip (requests): whenever the master's builders succeed in writing a request of
-   class / all-objects headers, 8- and 16-bit ranges, limited counts, a count-of-one object, the
-   clear-restart write and prefixed items (8- or 16-bit prefix, count patched afterwards) whose headers
-   satisfy the side conditions aw_ok, the library's parser decodes the bytes to the same control field,
-   function code, object headers, indices and object bytes, as a valid request, with every byte consumed *)
-Theorem encode_parse_round_trip : forall o cap seq fc hs bytes,
-  seq < 16 -> fc < 256 -> afunction_known fc = true -> afunction_has_iin fc = false ->
-  Forall (aw_ok o fc) hs -> awrite_request cap seq fc hs = AOk bytes ->
-  exists pf, parse_fragment o bytes = AOk pf
-    /\ pf_header pf = {| ah_control := actl_request seq; ah_function := fc; ah_iin := None |}
-    /\ ato_request (pf_header pf) = None
-    /\ headers_of pf = AOk (concat (map aw_headers hs))
-    /\ pf_raw_objects pf = concat (map aencode_header (concat (map aw_headers hs))).
-Proof.
-  intros o cap seq fc hs bytes Hseq Hfc Hk Hi HF Hw. apply awrite_request_bytes in Hw. subst bytes.
-  destruct (aw_requests_correct o fc hs HF) as [E1 [E2 E3]].
-  unfold parse_fragment, aparse_header. rewrite Hk, Hi. rewrite (actl_request_round_trip seq Hseq).
-  eexists. split; [reflexivity|]. cbn [pf_header pf_objects pf_raw_objects ah_function].
-  split; [reflexivity|]. split.
-  - unfold ato_request. cbn [ah_iin ah_control actl_request ac_fir ac_fin ac_uns]. reflexivity.
-  - destruct (proj2 (accept_iff_exact_bytes_fragment o fc (concat (map aw_bytes hs)) (concat (map aw_headers hs)) E3)
-                (conj E1 E2)) as [c [Hv Hit]].
-    split; [|exact E1]. unfold headers_of. cbn [pf_objects]. rewrite Hv. rewrite Hit. reflexivity.
-Qed.
